@@ -109,7 +109,11 @@ func runBarSeq(s *BarSeq) BarObs {
 		case "abort":
 			bar.Abort(c.F)
 		case "exit":
-			bar.Wait()
+			// the specification takes this step only from a terminal state; a bar that is not terminal here would
+			// block for ever, and the getters below already disagree with the specification
+			if bar.Completed() || bar.Aborted() || cancelled {
+				bar.Wait()
+			}
 		case "cancel":
 			cancel()
 			cancelled = true
